@@ -2260,12 +2260,16 @@ func (p *Parser) evaluateComparison(ctx context) (Expression, error) {
 	if err != nil {
 		return nil, err
 	}
-	operatorToken := p.peek()
-	operator := operatorToken.Value()
+	// Comparison operators share one precedence level and are left-associative (like in Go).
+	for {
+		operatorToken := p.peek()
+		operator := operatorToken.Value()
 
-	if operatorToken.Type() == lexer.COMPARE_OPERATOR {
+		if operatorToken.Type() != lexer.COMPARE_OPERATOR {
+			break
+		}
 		p.eat() // Eat operator token.
-		rightExpression, err := p.evaluateComparison(ctx)
+		rightExpression, err := p.evaluateAddition(ctx)
 
 		if err != nil {
 			return nil, err
@@ -2281,7 +2285,7 @@ func (p *Parser) evaluateComparison(ctx context) (Expression, error) {
 		if !slices.Contains(allowedOperators, operator) {
 			return nil, p.expectedError(fmt.Sprintf(`valid %s operator but got "%s"`, leftType.String(), operator), operatorToken)
 		}
-		return NewComparison(leftExpression, operator, rightExpression), nil
+		leftExpression = NewComparison(leftExpression, operator, rightExpression)
 	}
 	return leftExpression, nil
 }
